@@ -8,12 +8,25 @@ namespace Ross
 def callsOf (l : List LogEntry) : List (Nat × Packet) :=
   l.filterMap fun | .call t p => some (t, p) | _ => none
 
+/-- re-entrant handler invocations (from inside another callback's `send_packet`) -/
+def ncallsOf (l : List LogEntry) : List (Nat × Packet) :=
+  l.filterMap fun | .ncall t p => some (t, p) | _ => none
+
 def txOf (l : List LogEntry) : List Packet :=
   l.filterMap fun | .tx p _ => some p | _ => none
 
 /-- the handlers a packet is delivered to -/
 def recipients (hs : List (Nat × Handler)) (owned : Bool) : List Handler :=
   (hs.map Prod.snd).filter fun h => owned || h.captureAll
+
+/-- of the packets a callback sends, those C16 routes to the link: everything not addressed to the
+device itself, and everything when the device's own address is the broadcast address -/
+def wireSends (addr : UInt16) (qs : List Packet) : List Packet :=
+  qs.filter fun q => !(q.addr == addr) || addr == BROADCAST
+
+/-- of the packets a callback sends, those C16 loops back, each to every registered handler in id order -/
+def loopCalls (addr : UInt16) (hs : List (Nat × Handler)) (qs : List Packet) : List (Nat × Packet) :=
+  (qs.filter fun q => q.addr == addr).flatMap fun q => hs.map fun x => (x.2.token, q)
 
 /-- what `Interface::try_get_packet` returns for one poll of a link receiver -/
 def toRx : Out → Except IfErr Packet
